@@ -119,6 +119,8 @@ def _depth(db, chk, cs):
         chk.ob(rule, "_compute_depth: one path for a present root", None, where, found=len(runs))
         return
     nd = runs[0].env["self"].attrs["nodes"][IDX]
+    if _SEM.get("depth") is True and (to_term(nd.attrs.get("depth")) != T.C(-1) or rec != [[KID, T.C(-1)]]):
+        return          # another recursion protocol (e.g. the walker is handed the node's OWN depth): decided by the abstract run; the recurrence below describes the parent-depth protocol only
     # the root is entered with parent depth -2 (the root sentinel gets -1, top-level events 0)
     check_term(chk, rule, "a node's depth = the depth passed down by its parent + 1 (roots are entered with -2, so top-level events get 0)", where, to_term(nd.attrs.get("depth")), [T.C(-1)],
                "depth must equal the number of ancestors")
